@@ -274,8 +274,8 @@ func (g *progGen) compStmt(depth int) *tw.Stmt {
 				sb = append([]*tw.Stmt{tw.Text("~")}, sb...)
 			}
 			g.Feat["slot-body"]++
-			st.Slots = append(st.Slots, &tw.Stmt{Kind: tw.SSlot, Name: "", Body: sb, Text: rapid.SampledFrom([]string{"\n", " ", ""}).Draw(g.rt, "slotWs")})
-			st.Text = rapid.SampledFrom([]string{"\n", "", " "}).Draw(g.rt, "endWs")
+			st.Slots = append(st.Slots, &tw.Stmt{Kind: tw.SSlot, Name: "", Body: sb, Text: rapid.SampledFrom([]string{"\n", " ", "", "\r\n", "\t"}).Draw(g.rt, "slotWs")})
+			st.Text = rapid.SampledFrom([]string{"\n", "", " ", "\r\n"}).Draw(g.rt, "endWs")
 		}
 		rest := g.block(depth-1, false)
 		if len(rest) > 0 && rest[0].Kind == tw.SText && strings.HasPrefix(rest[0].Text, "(") {
